@@ -439,7 +439,9 @@ static void run_input(const uint8_t* p, size_t n) {
 static void input_cb(const uint8_t* p, size_t n, void* ud) { (void)ud; run_input(p, n); }
 
 static void hugebuf_case(const uint8_t* x, size_t nx, size_t claimed);
+static void gianterr_case(int which);
 static void load_exec(const uint8_t* d, size_t n) {
+  if (!strcmp(O.stage, "gianterr") && n == 2 && d[0] == 'Z') { gianterr_case(d[1]); return; }
   if (!strcmp(O.stage, "hugebuf") && n >= 9 && d[0] == 'H') { size_t c = 0; for (int i = 0; i < 8; i++) c = c << 8 | d[1 + i]; hugebuf_case(d + 9, n - 9, c); return; }
   if (P == 14) {
     if (n >= 3 && d[0] == 0xff && d[1] == 0xff) {
@@ -834,6 +836,73 @@ static void stage_bigcount(void) {
   vb_free(&b);
 }
 
+/* ---- stage: gianterr — offsets beyond 2^32 inside one input ----
+ * [ h'<2^32 zero bytes>', <tail> ]: the string's payload lies in the lazily mapped region (reading it costs no memory),
+ * the library's copy costs 4 GiB, so the stage is skipped (and says so) below 12 GiB available. What the tail is decides
+ * the outcome; every position and the bytes-read count lie beyond 2^32. Expectations are closed-form (the reference
+ * decoder is not asked to copy 4 GiB). */
+#include <unistd.h>
+static void gianterr_case(int which) {
+  uint8_t desc[2] = {'Z', (uint8_t)which};
+  if (!vh_case(desc, 2)) return;
+  long av = sysconf(_SC_AVPHYS_PAGES), ps = sysconf(_SC_PAGESIZE);
+  if (av < 0 || ps < 0 || (unsigned long long)av * (unsigned long long)ps < (12ull << 30)) { VH_COUNT("giant.skipped_less_than_12GiB_available", 1); return; }
+  size_t rl;
+  uint8_t* reg = vh_huge_region(&rl);
+  const size_t PAY = (size_t)1 << 32;
+  if (!reg || rl < PAY + 64) { VH_COUNT("huge.skipped_no_address_space", 1); return; }
+  static const struct { const char* name; uint8_t tail[3]; size_t ntail; int code; size_t pos_after_payload; size_t read_after_payload; } T[] = {
+      {"followed by one more member", {0x01}, 1, CBOR_ERR_NONE, 0, 1},
+      {"followed by a reserved byte", {0x1c}, 1, CBOR_ERR_MALFORMATED, 0, 0},
+      {"followed by a stray break", {0xff}, 1, CBOR_ERR_SYNTAXERROR, 1, 0},
+      {"followed by nothing", {0}, 0, CBOR_ERR_NOTENOUGHDATA, 0, 0},
+      {"followed by a truncated two-byte head", {0x19, 0x01}, 2, CBOR_ERR_NOTENOUGHDATA, 0, 0},
+  };
+  if (which < 0 || which >= (int)(sizeof T / sizeof T[0])) return;
+  /* layout: 82 5b 00000001 00000000 <payload> <tail> */
+  size_t hdr = 10;
+  memset(reg, 0, 16);
+  reg[0] = 0x82; reg[1] = 0x5b; reg[5] = 0x01;
+  uint8_t saved[4];
+  memcpy(saved, reg + hdr + PAY, 4);
+  memcpy(reg + hdr + PAY, T[which].tail, T[which].ntail);
+  size_t n = hdr + PAY + T[which].ntail;
+  size_t cap0 = CAP;
+  ta_set_cap((size_t)5 << 30);
+  ta_reset_stats();
+  struct cbor_load_result r;
+  memset(&r, 0xAA, sizeof r);
+  cbor_item_t* it = cbor_load(reg, n, &r);
+  ta_set_cap(cap0);
+  size_t after = hdr + PAY;
+  if (T[which].code == CBOR_ERR_NONE) {
+    if (!it) vh_violation("rejected-well-formed", "[h'<2^32 bytes>', 1] (%zu bytes) failed with code %d at %zu (refused requests: %llu)", n, (int)r.error.code, r.error.position, (unsigned long long)TA.refused);
+    else {
+      if (r.read != after + T[which].read_after_payload) vh_violation("read-mismatch", "read=%zu but the item's encoded length is %zu", r.read, after + 1);
+      if (!cbor_isa_array(it) || cbor_array_size(it) != 2 || !cbor_isa_bytestring(cbor_array_handle(it)[0]) || cbor_bytestring_length(cbor_array_handle(it)[0]) != PAY)
+        vh_violation("tree-mismatch", "the tree decoded from [h'<2^32 bytes>', 1] is not a 2-array whose first member is a 2^32-byte string");
+      else {
+        const unsigned char* h = cbor_bytestring_handle(cbor_array_handle(it)[0]);
+        if (h[0] != 0 || h[PAY - 1] != 0 || h[PAY / 2 + 12345] != 0) vh_violation("tree-mismatch", "the 2^32-byte string's content was not copied from the input");
+      }
+    }
+  } else {
+    if (it) vh_violation("accepted-ill-formed", "[h'<2^32 bytes>' %s] was accepted", T[which].name);
+    else if ((int)r.error.code != T[which].code || r.error.position != after + T[which].pos_after_payload)
+      vh_violation("wrong-code", "[h'<2^32 bytes>' %s]: cbor_load reported %s at %zu; the first violation is %s at %zu (refused requests: %llu)", T[which].name, code_name((int)r.error.code), r.error.position, code_name(T[which].code),
+                   after + T[which].pos_after_payload, (unsigned long long)TA.refused);
+  }
+  if (it) cbor_decref(&it);
+  memcpy(reg + hdr + PAY, saved, 4);
+  memset(reg, 0, 16);
+  if (ta_live_count()) { vh_violation("leak", "%zu block(s) left", ta_live_count()); ta_forget_all(); }
+  VH_COUNT("giant.inputs_with_offsets_beyond_2_32", 1);
+  vh_nontrivial(vh_hash(desc, 2));
+}
+static void stage_gianterr(void) {
+  for (int w = 0; w < 5; w++) { if (w % O.nshards != O.shard) continue; if (!O.thorough && w == 4) continue; gianterr_case(w); }
+}
+
 static void load_run(void) {
   setup();
   size_t bytesN = O.thorough ? 4 : 3;
@@ -847,6 +916,7 @@ static void load_run(void) {
   else if (!strcmp(st, "seq")) stage_seq();
   else if (!strcmp(st, "hugebuf")) stage_hugebuf();
   else if (!strcmp(st, "bigcount")) stage_bigcount();
+  else if (!strcmp(st, "gianterr")) stage_gianterr();
   else vh_die("driver load: unknown stage '%s'", st);
   if (P == 1) vh_set_rule("every enumerated/generated input is run through load, describe, size, serialize, serialize_alloc, copy, release and two streaming passes under ASan+UBSan with CBOR_ASSERT armed; non-trivial = the decoder got past the first head (an item was built, or the failure is a hard error / truncation after at least one complete head); distinct by construction in the exhaustive sweep, by 64-bit hash elsewhere (inputs short enough to be in the sweep are not counted again)");
   else if (P == 2) vh_set_rule("each input is decoded by cbor_load and by the independent RFC 8949 reference decoder; non-trivial = at least one side accepts (tree, read and ownership are then compared); distinct by construction in the exhaustive sweep, by hash elsewhere");
